@@ -133,6 +133,68 @@ async def start_while_winding_down(cleanup_yields, n_starts):
     return None
 
 
+async def stop_interrupted(n_starts_after):
+    """stop() is cancelled by its caller (e.g. wait_for timed out) while the cancelled run logic is still cleaning up:
+    the service still owns that task - it is still running, a start() must not run the logic a second time next to it,
+    and a later stop() returns only when it has finished."""
+    from frequenz.sdk.actor import Actor
+    release = asyncio.Event()
+
+    class Slow(Actor):
+        def __init__(self):
+            super().__init__(name="slow-stop")
+            self.active = 0
+            self.max_active = 0
+
+        async def _run(self):
+            self.active += 1
+            self.max_active = max(self.max_active, self.active)
+            try:
+                await asyncio.Event().wait()
+            except asyncio.CancelledError:
+                await release.wait()                     # clean-up that takes as long as the script says
+                raise
+            finally:
+                self.active -= 1
+
+    a = Slow()
+    a.start()
+    for _ in range(3):
+        await asyncio.sleep(0)
+    stopper = asyncio.create_task(a.stop())
+    for _ in range(5):
+        await asyncio.sleep(0)           # stop() has cancelled the task and is waiting for it
+    stopper.cancel()
+    try:
+        await stopper
+    except asyncio.CancelledError:
+        pass
+    if a.active != 1:
+        return f"harness: expected the run logic to be in its clean-up, active={a.active}"
+    if not a.is_running:
+        return "after an interrupted stop() the service says it is not running while its run logic is still cleaning up"
+    for _ in range(n_starts_after):
+        a.start()
+        for _ in range(3):
+            await asyncio.sleep(0)
+    worst = a.max_active
+    second = asyncio.create_task(a.stop())
+    for _ in range(5):
+        await asyncio.sleep(0)
+    returned_early = second.done() and a.active > 0
+    release.set()
+    await second
+    for _ in range(5):
+        await asyncio.sleep(0)
+    if worst > 1:
+        return f"{worst} invocations of the run logic active at the same time after an interrupted stop() and start()"
+    if returned_early:
+        return "a second stop() returned while the run logic spawned by the first start() was still running"
+    if a.active:
+        return "the run logic is still active after stop() returned"
+    return None
+
+
 def run(req):
     logging.disable(logging.CRITICAL)
     t0 = time.time()
@@ -164,12 +226,23 @@ def run(req):
             f = f"scenario raised {type(e).__name__}: {e}"
         if f:
             failure = (f, {"schedule": "start, cancel, start again during clean-up", "cleanup_loop_iterations": cy, "starts": ns})
+    for ns in (0, 1, 2):
+        if failure:
+            break
+        evaluations += 1
+        try:
+            f = asyncio.run(stop_interrupted(ns))
+        except Exception as e:  # pylint: disable=broad-except
+            f = f"scenario raised {type(e).__name__}: {e}"
+        if f:
+            failure = (f, {"schedule": "start, stop() cancelled while waiting, start x n, stop", "starts_after_interrupted_stop": ns})
     logging.disable(logging.NOTSET)
     out = {"status": "failed" if failure else "ok", "evaluations": evaluations, "distinct": evaluations, "known": {},
            "samples": samples, "wall_s": round(time.time() - t0, 1), "exhaustive": failure is None,
            "rule": "restart limit in {None, 0, 1, 2} x outcome plans of the run logic (up to 3 failures, then return) x an "
                    "optional second start() with its own plan x restart delay 0 / 50 ms (a subclass attribute); plus start / "
-                   "cancel / start again (1-2x) while the cancelled run logic cleans up for 1/3/8 loop iterations; all distinct"}
+                   "cancel / start again (1-2x) while the cancelled run logic cleans up for 1/3/8 loop iterations; a stop() cancelled by its caller "
+                   "while it waits, followed by 0-2 start() calls and a second stop(); all distinct"}
     if failure:
         out["failure"] = {"clause": "restart policy on the real Actor", "detail": failure[0]}
         out["inputs"] = failure[1]
